@@ -1,6 +1,6 @@
 #!/bin/bash
 # usage: tools/seed_intake.sh <ID>   -- confirm agent-produced seeds in /tmp/seed-<ID>/_seed and store them under /verif/seeded
-ID=$1; SRC=/tmp/seed-$ID/_seed; WT=/tmp/wt1
+ID=$1; ROUND=$2; SRC=/tmp/seed-$ID/_seed; WT=/tmp/wt1
 export GOFLAGS= GOPROXY=off
 for n in 1 2 3; do
   [ -f $SRC/patch$n.diff ] || continue
@@ -22,9 +22,10 @@ for n in 1 2 3; do
   git -C $WT checkout -q -- .
   echo "$ID-$n: demo_clean_exit=$clean build=$build suite=$suite demo_mutated_exit=$mut ($tname in $dir)"
   if [ $clean -eq 0 ] && [ $build -eq 0 ] && [ $suite -eq 0 ] && [ $mut -ne 0 ]; then
-    d=/verif/seeded/$ID-$n; mkdir -p $d
+    PROP=$(python3 -c "import json,sys; print(json.load(open(sys.argv[1])).get('property',sys.argv[2]))" $SRC/meta$n.json $ID 2>/dev/null || echo $ID)
+    if [ -n "$ROUND" ]; then d=/verif/seeded/$PROP-$ROUND$ID$n; else d=/verif/seeded/$ID-$n; fi; mkdir -p $d
     cp $SRC/patch$n.diff $d/patch.diff; cp $demo $d/demo_test.go
-    python3 - "$SRC/meta$n.json" "$d/meta.json" "$ID" "$dir" "$tname" <<'PY'
+    python3 - "$SRC/meta$n.json" "$d/meta.json" "${PROP:-$ID}" "$dir" "$tname" <<'PY'
 import json,sys
 src,dst,pid,dir_,t=sys.argv[1:]
 try: m=json.load(open(src))
